@@ -22,11 +22,13 @@ CONSTANTS Fam,        \* which family: "F1" "F2" "NM" "HID" "HID2" "F3" "OPT" "L
           Base,       \* base offset of the parsed file (1 = alone in its file set)
           NSlices, Slice,   \* explore the bodies whose index = Slice (mod NSlices)
           MaxCalls, MaxDepth, MaxRes,   \* budget: a run that exceeds it is cut and not judged
+          Wrap,       \* extra Memoize wrappers (C03): "none" | "all" (every node) | "odd" | "even" (nodes with odd / even id)
+          TwoPhase,   \* TRUE: after the memoised run the same asks are repeated on the grammar with every Memoize removed (C03)
           NameAll,    \* TRUE: every Any/Choice of the family's grammars carries a Name (C06)
           DoExport    \* print the cases for the replay
 
-VARIABLES askq, cur, outs
-mvars == <<vars, askq, cur, outs>>
+VARIABLES askq, cur, outs, phase, first
+mvars == <<vars, askq, cur, outs, phase, first>>
 
 D == INSTANCE Derivation
 
@@ -36,6 +38,7 @@ FamilySet == CASE Fam = "F1" -> {<<b>> : b \in F1Bodies}
                [] Fam = "HID" -> {<<b>> : b \in HiddenBodies}
                [] Fam = "F3" -> F3Pairs
                [] Fam = "HID2" -> Hidden2Pairs
+               [] Fam = "LRF" -> {<<b>> : b \in LRFreeBodies}
                [] Fam = "OPT" -> {<<b>> : b \in OptBodies}
                [] Fam = "LINES" -> {<<b>> : b \in LineBodies}
                [] OTHER -> Catalogue
@@ -49,8 +52,15 @@ AsksOf(b, ww) == LET nts == SetToSortSeq(b.nts, <)
                         <<nts[((i - 1) \div (Len(ww) + 1)) + 1], Base + ((i - 1) % (Len(ww) + 1))>>]
 
 Init == \E bodies \in Chosen, ww \in Inputs :
-          LET b == Build(bodies) IN
-          /\ InitWith(IF NameAll THEN NameAllG(b.G) ELSE b.G, ww, Base, b.root)
+          LET b == Build(bodies)
+              g1 == IF NameAll THEN NameAllG(b.G) ELSE b.G
+              g2 == CASE Wrap = "all" -> MemoWrapG(g1, (1..Len(g1)) \ {b.root})
+                      [] Wrap = "odd" -> MemoWrapG(g1, {i \in 1..Len(g1) : i % 2 = 1 /\ i # b.root})
+                      [] Wrap = "even" -> MemoWrapG(g1, {i \in 1..Len(g1) : i % 2 = 0 /\ i # b.root})
+                      [] OTHER -> g1
+          IN
+          /\ phase = 1 /\ first = <<>>
+          /\ InitWith(g2, ww, Base, b.root)
           /\ askq = AsksOf(b, ww)
           /\ cur = <<b.root, Base>>
           /\ outs = <<>>
@@ -59,17 +69,27 @@ ErrJ(e) == IF e = NoErr THEN <<>> ELSE <<e.pos, e.k, e.msg>>
 ResJ(res) == [i \in 1..Len(res) |-> <<res[i].t, res[i].s, res[i].e>>]
 OutRec == [n |-> cur[1], p |-> cur[2], res |-> ResJ(ret.res), err |-> ErrJ(ret.err), calls |-> calls, cerr |-> ErrJ(cerr)]
 
-Fin == done /\ askq = <<>>
+Fin == done /\ askq = <<>> /\ (TwoPhase => phase = 2)
 
 NextAsk == /\ done /\ askq # <<>>
            /\ Ask(Head(askq)[1], Head(askq)[2])
            /\ askq' = Tail(askq)
            /\ cur' = Head(askq)
            /\ outs' = Append(outs, OutRec)
-MStep == Step /\ UNCHANGED <<askq, cur, outs>>
+           /\ UNCHANGED <<phase, first>>
+MStep == Step /\ UNCHANGED <<askq, cur, outs, phase, first>>
+\* C03: start over on the same input with every Memoize wrapper removed; the asks of phase 1 are repeated
+AllAsks == LET all == Append(outs, OutRec) IN [i \in 1..Len(all) |-> <<all[i].n, all[i].p>>]
+Restart == /\ TwoPhase /\ phase = 1 /\ done /\ askq = <<>>
+           /\ phase' = 2 /\ first' = Append(outs, OutRec)
+           /\ G' = Strip(G, 1..Len(G)) /\ UNCHANGED <<w, B>>
+           /\ stack' = <<Frame(AllAsks[1][1], AllAsks[1][2], EmptyMap)>> /\ ret' = NoRet
+           /\ cache' = [x \in {} |-> 0] /\ calls' = 0 /\ cerr' = NoErr /\ done' = FALSE
+           /\ runs' = [x \in {} |-> 0] /\ fails' = {}
+           /\ askq' = Tail(AllAsks) /\ cur' = AllAsks[1] /\ outs' = <<>>
 Idle == Fin /\ UNCHANGED mvars
-Next == MStep \/ NextAsk \/ Idle
-Spec == Init /\ [][Next]_mvars /\ WF_mvars(MStep \/ NextAsk)
+Next == MStep \/ NextAsk \/ Restart \/ Idle
+Spec == Init /\ [][Next]_mvars /\ WF_mvars(MStep \/ NextAsk \/ Restart)
 
 \* (explosively ambiguous or cyclic bodies produce result lists of hundreds of alternatives; breadth-first
 \* exploration advances all runs level by level, so a few such runs would dominate the wall time)
@@ -94,7 +114,7 @@ Complete ==
 StartsOK == ret.t = "ret" => \A i \in 1..Len(ret.res) : ret.res[i].s <= ret.res[i].e /\ ret.res[i].e <= B + Len(w)
 
 \* ---- C04 ------------------------------------------------------------------
-RootDone == done /\ outs = <<>> /\ cur[2] = B      \* the Sentence root call has just returned
+RootDone == done /\ outs = <<>> /\ cur[2] = B /\ phase = 1      \* the Sentence root call has just returned
 XorOutcome == RootDone => LET o == ApiOutcome IN (o.node = <<>>) # (o.err = NoErr)
 SentenceIff ==
   RootDone /\ D!Admissible(G) =>
@@ -119,10 +139,22 @@ FurthestError ==
 
 \* ---- C03 ------------------------------------------------------------------
 AtMostOnceLRFree == D!LRFree(G) => AtMostOnce
+\* Memoize changes nothing observable except the call count: ordered results, returned error and the position of
+\* the furthest recorded error of every top-level call are those of the grammar without any Memoize
+ErrPosJ(e) == IF e = <<>> THEN 0 ELSE e[1]
+Transparent ==
+  (TwoPhase /\ phase = 2 /\ Fin /\ D!LRFree(G)) =>
+     LET second == Append(outs, OutRec) IN
+     IF /\ Len(second) = Len(first)
+        /\ \A i \in 1..Len(first) : /\ second[i].res = first[i].res
+                                      /\ second[i].err = first[i].err
+                                      /\ ErrPosJ(second[i].cerr) = ErrPosJ(first[i].cerr)
+     THEN TRUE
+     ELSE Print(<<"NOT TRANSPARENT", w, first, second, G>>, FALSE)
 
 \* ---- export ---------------------------------------------------------------
 Export ==
-  DoExport /\ Fin =>
+  (DoExport /\ done /\ askq = <<>> /\ phase = 1) =>
     LET adm == D!Admissible(G)
         T == IF adm THEN D!Ends(G, w) ELSE <<>>
         all == Append(outs, OutRec)
@@ -131,6 +163,11 @@ Export ==
                                   [n |-> all[i].n, p |-> all[i].p, res |-> all[i].res, err |-> all[i].err,
                                    calls |-> all[i].calls, cerr |-> all[i].cerr,
                                    ends |-> IF adm THEN SetToSortSeq(T[all[i].n][all[i].p - B], <) ELSE <<>>]]]))
+
+\* C07 (model side): a stored context-free result is never replaced by a different one (within one phase)
+CacheMonotoneMC ==
+  [][(phase' = phase) => \A key \in DOMAIN cache : key \in DOMAIN cache' /\
+        (cache[key].lrc = EmptyMap => cache'[key].res = cache[key].res)]_mvars
 
 Terminates == <>Fin
 =============================================================================
